@@ -81,10 +81,40 @@ def enumerate_cases(ctx):
                                                        'tz': tz}}
 
 
+def pair_cases():
+    """Two values that compare (and hash) equal in Python but have different encodings, or equal encodings through
+    different values: the second is encoded right after the first, WITHOUT clearing the caches in between, and judged
+    like any single value."""
+    out = []
+    pz = struct.pack('>d', 0.0).hex()
+    nz = struct.pack('>d', -0.0).hex()
+    for a, b in ((pz, nz), (nz, pz)):
+        for code in ('FDOUBL', 'FSINGL'):
+            out.append({'kind': 'pair', 'code': code, 'first': {'code': code, 'bits': a}, 'second': {'code': code, 'bits': b}})
+    for code in ('UVARI', 'USHORT', 'SLONG', 'ULONG', 'UNORM'):
+        out.append({'kind': 'pair', 'code': code, 'first': {'code': 'STATUS', 'v': True}, 'second': {'code': code, 'v': 1}})
+        out.append({'kind': 'pair', 'code': code, 'first': {'code': code, 'v': 1}, 'second': {'code': 'STATUS', 'v': True}})
+    out.append({'kind': 'pair', 'code': 'ASCII', 'first': {'code': 'IDENT', 'text': {'n': 130, 'a': 3, 'b': 1}},
+                'second': {'code': 'ASCII', 'text': {'n': 130, 'a': 3, 'b': 1}}})
+    out.append({'kind': 'pair', 'code': 'IDENT', 'first': {'code': 'ASCII', 'text': {'n': 130, 'a': 3, 'b': 1}},
+                'second': {'code': 'IDENT', 'text': {'n': 130, 'a': 3, 'b': 1}}})
+    if model.zones_available():
+        from vf.spec.strategies import ZONE_TIMES
+        for z, iso in ZONE_TIMES[:3]:
+            for f in (0, 1):
+                out.append({'kind': 'pair', 'code': 'DTIME',
+                            'first': {'code': 'DTIME', 'dt': {'$dt': iso, 'zone': z, 'fold': f}},
+                            'second': {'code': 'DTIME', 'dt': {'$dt': iso, 'zone': z, 'fold': 1 - f}}})
+    # the same instant given in two fixed offsets (equal and equal hash): both must encode that instant
+    out.append({'kind': 'pair', 'code': 'DTIME', 'first': {'code': 'DTIME', 'dt': {'$dt': '2010-05-05T12:00:00', 'tz': 0}},
+                'second': {'code': 'DTIME', 'dt': {'$dt': '2010-05-05T17:30:00', 'tz': 330}}})
+    return out
+
+
 @st.composite
 def prim_cases(draw):
     kind = draw(st.sampled_from(['int', 'int', 'float', 'float', 'ident', 'ascii', 'ascii-big', 'nonascii', 'dtime',
-                                 'obname', 'objref', 'status']))
+                                 'obname', 'objref', 'status', 'pair']))
     if kind == 'int':
         code = draw(st.sampled_from(list(INT_RANGES)))
         lo, hi = INT_RANGES[code]
@@ -112,6 +142,12 @@ def prim_cases(draw):
     if kind == 'nonascii':
         s = draw(st.text(min_size=1, max_size=12).filter(lambda t: any(ord(ch) > 127 for ch in t)))
         return {'code': draw(st.sampled_from(['IDENT', 'ASCII'])), 'raw_text': s}
+    if kind == 'pair':
+        return draw(st.sampled_from(pair_cases()))
+    if kind == 'dtime' and draw(st.integers(0, 5)) == 0 and model.zones_available():
+        from vf.spec.strategies import ZONE_TIMES
+        z, iso = draw(st.sampled_from(ZONE_TIMES))
+        return {'code': 'DTIME', 'dt': {'$dt': iso, 'zone': z, 'fold': draw(st.integers(0, 1))}}
     if kind == 'dtime':
         base = datetime(1899, 12, 30) + timedelta(seconds=draw(st.integers(0, 8110 * 10 ** 6)),
                                                   microseconds=draw(st.integers(0, 999999)))
@@ -161,15 +197,19 @@ class C06(Property):
     rule = ("cases: (code, value) pairs - UVARI -300..70000 and 2^30+-300, all values of the 1- and 2-byte integer "
             "codes +-300 beyond each edge, 4-byte codes at their edges, IDENT/ASCII lengths 0..300 (+16383, 16384, "
             "70000), OBNAME origin x copy x name-length grid, STATUS, DTIME edges; Hypothesis: float bit patterns, "
-            "ASCII up to 70000 chars, date-times with any zone and microsecond, non-ASCII text; non-trivial = value "
+            "ASCII up to 70000 chars, date-times with any zone and microsecond, non-ASCII text, date-times in named zones inside a repeated hour (fold 0/1), pairs of equal-looking values encoded back to back; non-trivial = value "
             "within 2 of a form/range boundary, multi-byte length form, or a required rejection; distinct (code, value)")
-    assumptions = ("caches of write_struct are cleared before every case (history effects are C14's business)",
+    assumptions = ("caches of write_struct are cleared before every case, except between the two values of a 'pair' case "
+                   "(equal-looking values with different encodings); longer histories are C14's business",
                    "a non-minimal but decodable UVARI form is only reported in the class histogram, not as a violation")
 
     def enumerate(self, ctx):
         for c in enumerate_cases(ctx):
             c['kind'] = 'prim'
             yield c
+        for k, c in enumerate(pair_cases()):
+            if k % ctx.nshards == ctx.shard:
+                yield c
 
     def enumerated_exhaustive_claim(self, tier):
         return True
@@ -185,9 +225,17 @@ class C06(Property):
 
     def run(self, case, ctx):
         dw.check_import_location()
+        if case.get('kind') == 'pair':
+            self.run(dict(case['first'], kind='prim'), ctx)                 # (clears the caches first)
+            res = self.run(dict(case['second'], kind='prim', keep_caches=True), ctx)
+            res.labels = list(res.labels) + ['after-an-equal-looking-value']
+            res.violations = [Violation(v.sig + '/after-equal-looking-value', v.detail) for v in res.violations]
+            res.nontrivial = True
+            return res
         from dliswriter.utils.internal.struct_writer import write_struct
         from dliswriter.utils.internal.internal_enums import RepresentationCode
-        dw.clear_caches()
+        if not case.get('keep_caches'):
+            dw.clear_caches()
         code = case['code']
         rc = RepresentationCode[code]
         expect_raise = False
